@@ -683,7 +683,10 @@ fn history_case(ctx: &Ctx, dir: &std::path::Path, case: u64, seed: u64, rep: &mu
     // case, C17's (the manifest itself named under another spelling with -f)
     let prop: &str = if ctx.prop == "C13" { if case % 3 == 0 { "C17" } else { "C09" } } else if ctx.prop == "C15" { "C09" } else { &ctx.prop };
     let mut rng = Rng::new(seed);
-    let opts = hist_opts(prop, &mut rng, ctx.thorough());
+    let mut opts = hist_opts(prop, &mut rng, ctx.thorough());
+    if ctx.prop == "C13" {
+        opts.defaults = rng.chance(1, 2);
+    }
     let mut proj = gen_project(&mut rng, &opts);
     if prop == "C03" && rng.chance(1, 4) {
         // Meson-style: a step touches an input nobody else uses
@@ -735,6 +738,11 @@ fn history_case(ctx: &Ctx, dir: &std::path::Path, case: u64, seed: u64, rep: &mu
     let mut world = World::new(dir.to_path_buf(), proj);
     world.next_gens = gens;
     world.init_sources(&mut rng);
+    if ctx.prop == "C13" {
+        // every path of the manifest (outputs, inputs of every role, `default` targets) in a spelling of its own
+        world.ropts.spell_seed = rng.next() | 1;
+        world.ropts.via_vars = rng.chance(1, 3);
+    }
     if prop == "C17" && rng.chance(1, 3) {
         // the CMake layout: the generator rewrites an included file along with the manifest
         world.ropts.split_include = Some("rules.ninja".into());
